@@ -3,6 +3,7 @@ package sim
 import (
 	"bytes"
 	"fmt"
+	"reflect"
 	"sort"
 
 	"go.sia.tech/core/consensus"
@@ -197,6 +198,12 @@ func (s *Store) Apply(au consensus.ApplyUpdate) error {
 	for _, d := range au.FileContractElementDiffs() {
 		id := d.FileContractElement.ID
 		e := copyFC(d.FileContractElement)
+		// the library's own view of "the revised element" must be the element carrying the revision
+		if re, ok := d.RevisionElement(); ok != (d.Revision != nil) {
+			return fmt.Errorf("contract %v: RevisionElement reports ok=%v, the diff's revision is present=%v", id, ok, d.Revision != nil)
+		} else if ok && (re.ID != id || re.StateElement.LeafIndex != d.FileContractElement.StateElement.LeafIndex || !sameProof(re.StateElement.MerkleProof, d.FileContractElement.StateElement.MerkleProof) || !reflect.DeepEqual(re.FileContract, *d.Revision)) {
+			return fmt.Errorf("contract %v: RevisionElement is not the diff's element carrying the revision", id)
+		}
 		if d.Revision != nil {
 			e.FileContract = *d.Revision
 			e = copyFC(e)
@@ -222,6 +229,11 @@ func (s *Store) Apply(au consensus.ApplyUpdate) error {
 	for _, d := range au.V2FileContractElementDiffs() {
 		id := d.V2FileContractElement.ID
 		e := d.V2FileContractElement.Copy()
+		if re, ok := d.V2RevisionElement(); ok != (d.Revision != nil) {
+			return fmt.Errorf("v2 contract %v: V2RevisionElement reports ok=%v, the diff's revision is present=%v", id, ok, d.Revision != nil)
+		} else if ok && (re.ID != id || re.StateElement.LeafIndex != d.V2FileContractElement.StateElement.LeafIndex || !sameProof(re.StateElement.MerkleProof, d.V2FileContractElement.StateElement.MerkleProof) || !reflect.DeepEqual(re.V2FileContract, *d.Revision)) {
+			return fmt.Errorf("v2 contract %v: V2RevisionElement is not the diff's element carrying the revision", id)
+		}
 		if d.Revision != nil {
 			e.V2FileContract = *d.Revision
 		}
@@ -491,4 +503,16 @@ func (s *Store) Supplement(b types.Block, childHeight uint64, requireHeight uint
 		}
 	}
 	return bs
+}
+
+func sameProof(a, b []types.Hash256) bool {
+	if len(a) != len(b) {
+		return false
+	}
+	for i := range a {
+		if a[i] != b[i] {
+			return false
+		}
+	}
+	return true
 }
